@@ -15,7 +15,7 @@ for row in tab["properties"]:
         "quick_cmd": f"./check {pid} quick",
         "thorough_cmd": f"./check {pid} thorough",
         "evidence_file": f"/verif/evidence/{pid}.json",
-        "replay_cmd_template": "cat {path}",
+        "replay_cmd_template": "./replay {path}",
         "engine": "govc",
         "level_claimed": {"category": "proof", "text": row["level_text"], "design_ref": row.get("design_ref", "DESIGN.md §9")},
         "level_note": row["level_note"],
